@@ -832,3 +832,354 @@ Proof.
     intros Hs. simpl. split; [now apply SS_NoDup|]. intros i j. intuition congruence.
 Qed.
 End MatrixRoundtrip.
+
+(** * C13: the step machine *)
+Lemma path_eqb_eq a : forall b, path_eqb a b = true <-> a = b.
+Proof.
+  induction a as [|x a IH]; intros [|y b]; simpl; split; try congruence; try reflexivity.
+  - intros H. apply andb_true_iff in H. destruct H as [H1 H2]. apply IH in H2. f_equal; [lia|exact H2].
+  - intros H. inversion H; subst. rewrite Z.eqb_refl. simpl. now apply IH.
+Qed.
+Lemma path_eqb_refl a : path_eqb a a = true. Proof. now apply path_eqb_eq. Qed.
+Lemma path_eqb_neq a b : a <> b -> path_eqb a b = false.
+Proof. intros H. destruct (path_eqb a b) eqn:E; [|reflexivity]. apply path_eqb_eq in E. contradiction. Qed.
+
+Lemma is_prefix_refl d : is_prefix d d = true.
+Proof. induction d as [|x d IH]; simpl; [reflexivity|]. now rewrite Z.eqb_refl, IH. Qed.
+
+Lemma lookup_filter (P : path -> bool) f q :
+  lookup (filter (fun e : path * group => P (fst e)) f) q = if P q then lookup f q else None.
+Proof.
+  induction f as [|[r g] t IH]; simpl; [now destruct (P q)|].
+  destruct (P r) eqn:Er; simpl.
+  - destruct (path_eqb r q) eqn:E.
+    + apply path_eqb_eq in E. subst. now rewrite Er.
+    + exact IH.
+  - rewrite IH. destruct (P q) eqn:Eq; [|reflexivity].
+    destruct (path_eqb r q) eqn:E; [|reflexivity]. apply path_eqb_eq in E. subst. congruence.
+Qed.
+
+Lemma lookup_remove_path f p q : lookup (remove_path f p) q = if path_eqb q p then None else lookup f q.
+Proof.
+  unfold remove_path. rewrite (lookup_filter (fun r => negb (path_eqb r p))).
+  now destruct (path_eqb q p).
+Qed.
+
+Lemma lookup_remove_under f d q : lookup (remove_under f d) q = if is_prefix d q then None else lookup f q.
+Proof.
+  unfold remove_under. rewrite (lookup_filter (fun r => negb (is_prefix d r))).
+  now destruct (is_prefix d q).
+Qed.
+
+Lemma lookup_set f p g q : lookup (set_group f p g) q = if path_eqb p q then Some g else lookup f q.
+Proof.
+  unfold set_group. simpl. destruct (path_eqb p q) eqn:E; [reflexivity|].
+  rewrite lookup_remove_path. destruct (path_eqb q p) eqn:E2; [|reflexivity].
+  apply path_eqb_eq in E2. subst. rewrite path_eqb_refl in E. discriminate.
+Qed.
+
+Lemma lookup_ensure f p q :
+  lookup (ensure_group f p) q =
+  if path_eqb p q then (match lookup f p with Some g => Some g | None => Some fresh end) else lookup f q.
+Proof.
+  unfold ensure_group. destruct (lookup f p) as [g|] eqn:E.
+  - destruct (path_eqb p q) eqn:E2; [|reflexivity]. apply path_eqb_eq in E2. now subst.
+  - rewrite lookup_set. reflexivity.
+Qed.
+
+Lemma lookup_touch f p tag q :
+  lookup (touch f p tag) q =
+  if path_eqb p q
+  then option_map (fun g => {| g_format := g_format g; g_content := g_content g * 31 + tag |}) (lookup f p)
+  else lookup f q.
+Proof.
+  unfold touch. destruct (lookup f p) as [g|] eqn:E.
+  - rewrite lookup_set. reflexivity.
+  - destruct (path_eqb p q) eqn:E2; [|reflexivity]. apply path_eqb_eq in E2. subst. now rewrite E.
+Qed.
+
+(** ensure_group never changes an existing group and only adds unformatted ones *)
+Lemma lookup_fold_ensure ps : forall f q,
+  match lookup (fold_left ensure_group ps f) q with
+  | Some g => lookup f q = Some g \/ (lookup f q = None /\ g = fresh)
+  | None => lookup f q = None
+  end.
+Proof.
+  induction ps as [|p ps IH]; intros f q; simpl.
+  - destruct (lookup f q); auto.
+  - specialize (IH (ensure_group f p) q).
+    destruct (lookup (fold_left ensure_group ps (ensure_group f p)) q) as [g|].
+    + rewrite lookup_ensure in IH. destruct (path_eqb p q) eqn:E.
+      * apply path_eqb_eq in E. subst q. destruct (lookup f p) as [g0|]; destruct IH as [H|[H1 H2]]; try discriminate; auto.
+        inversion H; subst. auto.
+      * exact IH.
+    + rewrite lookup_ensure in IH. destruct (path_eqb p q) eqn:E; [|exact IH].
+      destruct (lookup f p); discriminate.
+Qed.
+
+Lemma is_cooler_lookup f p : is_cooler f p = true <-> exists g, lookup f p = Some g /\ g_format g = true.
+Proof.
+  unfold is_cooler. destruct (lookup f p) as [g|]; split.
+  - eauto.
+  - intros (g' & H & Hf). now inversion H; subst.
+  - discriminate.
+  - intros (g' & H & _). discriminate.
+Qed.
+
+Lemma lookup_some_in f p g : lookup f p = Some g -> In p (map fst f).
+Proof.
+  induction f as [|[r g'] t IH]; simpl; [discriminate|].
+  destruct (path_eqb r p) eqn:E; [apply path_eqb_eq in E; auto|auto].
+Qed.
+
+(** list_coolers lists exactly the recognised paths *)
+Theorem list_coolers_spec f p : In p (list_coolers f) <-> is_cooler f p = true.
+Proof.
+  unfold list_coolers. rewrite filter_In. split; [tauto|].
+  intros H. split; [|exact H]. apply is_cooler_lookup in H. destruct H as (g & H & _). eapply lookup_some_in; eauto.
+Qed.
+
+(** every step other than write_info creates no cooler anywhere *)
+Lemma step_no_new_cooler dest s f f' :
+  s <> SInfo -> exec_step dest s f = Some f' ->
+  forall p, is_cooler f' p = true -> is_cooler f p = true.
+Proof.
+  intros Hs He p Hp. apply is_cooler_lookup in Hp. destruct Hp as (g & Hl & Hf).
+  apply is_cooler_lookup.
+  destruct s as [[|]| |tag|[|]|]; cbn [exec_step] in He; try congruence.
+  - (* open w *) inversion He; subst f'; clear He.
+    cbn [lookup] in Hl. destruct (path_eqb [] p); [|discriminate]. inversion Hl; subst. discriminate.
+  - (* open a *) inversion He; subst f'; clear He.
+    rewrite lookup_ensure in Hl. destruct (path_eqb [] p) eqn:E; [|eauto].
+    apply path_eqb_eq in E. subst p. destruct (lookup f []) as [g0|]; [eauto|]. inversion Hl; subst. discriminate.
+  - (* make target *)
+    destruct dest as [|x d]; [|remember (proper_prefixes (x :: d)) as ps eqn:Eps; clear Eps]; inversion He; subst f'; clear He.
+    + rewrite lookup_touch in Hl. destruct (path_eqb [] p) eqn:E; [|eauto].
+      apply path_eqb_eq in E. subst p. destruct (lookup f []) as [g0|]; [|discriminate].
+      simpl in Hl. inversion Hl; subst. simpl in Hf. eauto.
+    + rewrite lookup_set in Hl. destruct (path_eqb (x :: d) p) eqn:E.
+      * inversion Hl; subst. discriminate.
+      * pose proof (lookup_fold_ensure ps (remove_under f (x :: d)) p) as Hq.
+        rewrite Hl in Hq. destruct Hq as [Hq|[_ ->]]; [|discriminate].
+        rewrite lookup_remove_under in Hq. destruct (is_prefix (x :: d) p); [discriminate|eauto].
+  - (* write *) inversion He; subst f'; clear He.
+    rewrite lookup_touch in Hl. destruct (path_eqb dest p) eqn:E; [|eauto].
+    apply path_eqb_eq in E. subst p. destruct (lookup f dest) as [g0|]; [|discriminate].
+    simpl in Hl. inversion Hl; subst. simpl in Hf. eauto.
+  - (* chunk *) inversion He; subst f'; clear He.
+    rewrite lookup_touch in Hl. destruct (path_eqb dest p) eqn:E; [|eauto].
+    apply path_eqb_eq in E. subst p. destruct (lookup f dest) as [g0|]; [|discriminate].
+    simpl in Hl. inversion Hl; subst. simpl in Hf. eauto.
+Qed.
+
+Lemma run_no_new_cooler dest : forall steps f,
+  ~ In SInfo steps ->
+  forall p, is_cooler (fst (run dest steps f)) p = true -> is_cooler f p = true.
+Proof.
+  induction steps as [|s t IH]; intros f Hn p Hp; simpl in *; [exact Hp|].
+  destruct (exec_step dest s f) as [f1|] eqn:E; [|exact Hp].
+  apply (step_no_new_cooler dest s f f1); [intros ->; tauto|exact E|].
+  apply IH; [tauto|exact Hp].
+Qed.
+
+Lemma run_app dest a : forall b f,
+  run dest (a ++ b) f = (let (f1, ok) := run dest a f in if ok then run dest b f1 else (f1, false)).
+Proof.
+  induction a as [|s t IH]; intros b f; simpl.
+  - now destruct (run dest b f).
+  - destruct (exec_step dest s f) as [f1|]; [apply IH|reflexivity].
+Qed.
+
+Lemma create_steps_split m oks :
+  exists pre, create_steps m oks = pre ++ [SInfo] /\ ~ In SInfo pre.
+Proof.
+  exists ([SOpen m; SMakeTarget; SWrite 1; SWrite 2; SWrite 3] ++ map SChunk oks ++ [SWrite 5]).
+  split.
+  - unfold create_steps. rewrite <- !app_assoc. reflexivity.
+  - rewrite !in_app_iff. simpl. rewrite in_map_iff.
+    intros [H|[(b & H & _)|H]]; [|discriminate|]; intuition discriminate.
+Qed.
+
+(** failed_create_not_cooler / no new cooler anywhere: if create() stops anywhere before its end - a rejected
+    chunk, an exception of the iterator before any chunk index, a value that does not fit - then no path is
+    recognised as a cooler that was not one before; in particular the destination is not, nor is it listed *)
+Theorem failed_create_no_new_cooler m dest oks f f' :
+  run dest (create_steps m oks) f = (f', false) ->
+  forall p, is_cooler f' p = true -> is_cooler f p = true.
+Proof.
+  intros Hr p Hp. destruct (create_steps_split m oks) as (pre & Heq & Hn). rewrite Heq in Hr.
+  rewrite run_app in Hr. destruct (run dest pre f) as [f1 ok] eqn:E1.
+  assert (Hf1 : is_cooler f1 p = true -> is_cooler f p = true).
+  { intros H. apply (run_no_new_cooler dest pre f Hn). now rewrite E1. }
+  destruct ok.
+  - simpl in Hr. destruct (lookup f1 dest); inversion Hr; subst. auto.
+  - inversion Hr; subst. auto.
+Qed.
+
+Theorem failed_create_not_cooler m dest oks f f' :
+  is_cooler f dest = false ->
+  run dest (create_steps m oks) f = (f', false) ->
+  is_cooler f' dest = false /\ ~ In dest (list_coolers f').
+Proof.
+  intros H0 Hr.
+  assert (H : is_cooler f' dest = false).
+  { destruct (is_cooler f' dest) eqn:E; [|reflexivity].
+    apply (failed_create_no_new_cooler m dest oks f f' Hr) in E. congruence. }
+  split; [exact H|]. rewrite list_coolers_spec. congruence.
+Qed.
+
+(** the same for a process that dies between two steps: after any proper prefix of the step list *)
+Theorem crashed_create_not_cooler m dest oks f k :
+  (k < length (create_steps m oks))%nat ->
+  forall p, is_cooler (fst (run dest (firstn k (create_steps m oks)) f)) p = true -> is_cooler f p = true.
+Proof.
+  intros Hk. destruct (create_steps_split m oks) as (pre & Heq & Hn). rewrite Heq in *.
+  rewrite app_length in Hk. simpl in Hk.
+  rewrite firstn_app. replace (k - length pre)%nat with 0%nat by lia. simpl. rewrite app_nil_r.
+  apply run_no_new_cooler. intros Hin. apply Hn. rewrite <- (firstn_skipn k pre). apply in_app_iff. now left.
+Qed.
+
+(** frame: in append mode every group that existed before and is not the destination or below it (for a root
+    destination: every group other than the root) is unchanged - after a failed AND after a completed create *)
+Definition untouched (dest p : path) : Prop :=
+  match dest with [] => p <> [] | _ => is_prefix dest p = false end.
+
+Lemma untouched_neq dest p : untouched dest p -> p <> dest.
+Proof.
+  unfold untouched. destruct dest as [|x d]; [auto|]. intros H ->. rewrite is_prefix_refl in H. discriminate.
+Qed.
+
+Lemma fold_ensure_keeps ps : forall f q g, lookup f q = Some g -> lookup (fold_left ensure_group ps f) q = Some g.
+Proof.
+  intros f q g H. pose proof (lookup_fold_ensure ps f q) as Hq.
+  destruct (lookup (fold_left ensure_group ps f) q) as [g'|].
+  - destruct Hq as [Hq|[Hq _]]; congruence.
+  - congruence.
+Qed.
+
+Lemma step_frame dest s f f' :
+  s <> SOpen ModeW -> exec_step dest s f = Some f' ->
+  forall p g, untouched dest p -> lookup f p = Some g -> lookup f' p = Some g.
+Proof.
+  intros Hs He p g Hu Hl. pose proof (untouched_neq dest p Hu) as Hne.
+  assert (Hpe : path_eqb dest p = false) by (apply path_eqb_neq; congruence).
+  destruct s as [[|]| |tag|[|]|]; cbn [exec_step] in He; try congruence.
+  - inversion He; subst f'. rewrite lookup_ensure. destruct (path_eqb [] p) eqn:E; [|exact Hl].
+    apply path_eqb_eq in E. subst p. now rewrite Hl.
+  - destruct dest as [|x d]; [|remember (proper_prefixes (x :: d)) as ps eqn:Eps; clear Eps]; inversion He; subst f'; clear He.
+    + rewrite lookup_touch, Hpe. exact Hl.
+    + rewrite lookup_set, Hpe. apply fold_ensure_keeps. rewrite lookup_remove_under.
+      unfold untouched in Hu. now rewrite Hu.
+  - inversion He; subst f'. rewrite lookup_touch, Hpe. exact Hl.
+  - inversion He; subst f'. rewrite lookup_touch, Hpe. exact Hl.
+  - destruct (lookup f dest) as [g0|]; [|discriminate]. inversion He; subst f'. rewrite lookup_set, Hpe. exact Hl.
+Qed.
+
+Lemma run_frame dest : forall steps f,
+  ~ In (SOpen ModeW) steps ->
+  forall p g, untouched dest p -> lookup f p = Some g -> lookup (fst (run dest steps f)) p = Some g.
+Proof.
+  induction steps as [|s t IH]; intros f Hn p g Hu Hl; simpl in *; [exact Hl|].
+  destruct (exec_step dest s f) as [f1|] eqn:E; [|exact Hl].
+  apply IH; [tauto|exact Hu|]. eapply step_frame; [|exact E|exact Hu|exact Hl]. intros ->. tauto.
+Qed.
+
+Lemma create_steps_append_no_w oks : ~ In (SOpen ModeW) (create_steps ModeA oks).
+Proof.
+  unfold create_steps. rewrite !in_app_iff. simpl. rewrite in_map_iff.
+  intros [H|[(b & H & _)|H]]; [|discriminate|]; intuition discriminate.
+Qed.
+
+Theorem failed_create_frame dest oks f k p g :
+  untouched dest p -> lookup f p = Some g ->
+  lookup (fst (run dest (create_steps ModeA oks) f)) p = Some g /\
+  lookup (fst (run dest (firstn k (create_steps ModeA oks)) f)) p = Some g.
+Proof.
+  intros Hu Hl. split.
+  - apply run_frame; auto. apply create_steps_append_no_w.
+  - apply run_frame; auto. intros Hin. apply (create_steps_append_no_w oks).
+    rewrite <- (firstn_skipn k (create_steps ModeA oks)). apply in_app_iff. now left.
+Qed.
+
+(** a create that completes does make the destination a cooler *)
+Theorem completed_create_is_cooler m dest oks f f' :
+  run dest (create_steps m oks) f = (f', true) -> is_cooler f' dest = true.
+Proof.
+  intros Hr. destruct (create_steps_split m oks) as (pre & Heq & _). rewrite Heq in Hr.
+  rewrite run_app in Hr. destruct (run dest pre f) as [f1 ok]. destruct ok; [|discriminate].
+  simpl in Hr. destruct (lookup f1 dest) as [g|]; [|discriminate]. inversion Hr; subst f'.
+  unfold is_cooler. rewrite lookup_set, path_eqb_refl. reflexivity.
+Qed.
+
+(** a failing iteration makes the whole run fail *)
+Lemma run_chunks_fail dest rest : forall oks f, In false oks -> snd (run dest (map SChunk oks ++ rest) f) = false.
+Proof.
+  induction oks as [|b t IH]; intros f Hin; [destruct Hin|].
+  simpl. destruct b; simpl.
+  - apply IH. destruct Hin; [discriminate|auto].
+  - reflexivity.
+Qed.
+
+Lemma run_create_fails m dest oks f : In false oks -> snd (run dest (create_steps m oks) f) = false.
+Proof.
+  intros Hin. unfold create_steps. rewrite run_app.
+  destruct (run dest [SOpen m; SMakeTarget; SWrite 1; SWrite 2; SWrite 3] f) as [f1 ok]. destruct ok; [|reflexivity].
+  now apply run_chunks_fail.
+Qed.
+
+(** * the property at the level of input streams *)
+Section Streams.
+Context {V : Type}.
+Notation rowT := (key * V)%type.
+
+(** an item that must not be accepted with the default checks *)
+Definition bad_item (n : Z) (tc : bool) (it : option (list rowT)) : Prop :=
+  match it with
+  | None => True                                           (* the iterator raises here *)
+  | Some c => (exists r, In r c /\ bad_id n r) \/
+              (tc = true /\ exists r, In r c /\ snd (fst r) < fst (fst r)) \/
+              ~ NoDup (map fst c)
+  end.
+
+Lemma bad_item_not_ok n tc es fits it :
+  bad_item n tc it -> item_ok (validate_pixels n true tc true es) fits it = false.
+Proof.
+  destruct it as [c|]; simpl; [|reflexivity]. intros H.
+  destruct (validator_complete n tc es c H) as [e ->]. reflexivity.
+Qed.
+
+(** C13, ordered creation: a stream holding, at ANY position, a chunk with an out-of-range id, a lower-triangle
+    pixel (symmetric mode) or a repeated key, or a point where the iterator raises, makes create() fail, and the
+    destination - if it was no cooler before - is neither recognised nor listed as one afterwards; no other path
+    becomes a cooler; in append mode every other existing group is unchanged. *)
+Theorem invalid_stream_no_cooler m dest n tc es fits (items : list (option (list rowT))) f :
+  (exists it, In it items /\ bad_item n tc it) ->
+  let '(f', ok) := create_machine m dest (validate_pixels n true tc true es) fits items f in
+  ok = false /\
+  (forall p, is_cooler f' p = true -> is_cooler f p = true) /\
+  (is_cooler f dest = false -> is_cooler f' dest = false /\ ~ In dest (list_coolers f')) /\
+  (m = ModeA -> forall p g, untouched dest p -> lookup f p = Some g -> lookup f' p = Some g).
+Proof.
+  intros (it & Hin & Hbad). unfold create_machine.
+  set (oks := map (item_ok (validate_pixels n true tc true es) fits) items).
+  assert (Hf : In false oks).
+  { unfold oks. apply in_map_iff. exists it. split; [|exact Hin]. now apply bad_item_not_ok. }
+  pose proof (run_create_fails m dest oks f Hf) as Hfail.
+  destruct (run dest (create_steps m oks) f) as [f' ok] eqn:Hr. simpl in Hfail. subst ok.
+  split; [reflexivity|]. split; [|split].
+  - apply (failed_create_no_new_cooler m dest oks f f' Hr).
+  - intros H0. apply (failed_create_not_cooler m dest oks f f' H0 Hr).
+  - intros -> p g Hu Hl. pose proof (proj1 (failed_create_frame dest oks f 0 p g Hu Hl)) as H.
+    now rewrite Hr in H.
+Qed.
+
+(** unordered creation: the failure happens in the sort pass, the destination file is not touched at all *)
+Theorem invalid_stream_unordered_untouched m dest n tc es fits (items : list (option (list rowT))) f :
+  (exists it, In it items /\ bad_item n tc it) ->
+  create_unordered_machine m dest (validate_pixels n true tc true es) fits items f = (f, false).
+Proof.
+  intros (it & Hin & Hbad). unfold create_unordered_machine.
+  destruct (forallb (item_ok (validate_pixels n true tc true es) fits) items) eqn:E; [|reflexivity].
+  rewrite forallb_forall in E. specialize (E it Hin). rewrite bad_item_not_ok in E by exact Hbad. discriminate.
+Qed.
+End Streams.
